@@ -26,7 +26,7 @@ m = {
     },
     "engines": [
         {"name": "vcheck", "path": "/verif/cmd/vcheck", "serves_properties": sorted(CHECKS),
-         "kind_free_text": "Go supervisor + child worker processes running the real gedcom code from /repo under generated workloads; monitors = reference-model, metamorphic and invariant oracles, crash/deadlock attribution through a per-case marker, Go race detector logs (C11, C19), event logs from build-tagged hooks"},
+         "kind_free_text": "Go supervisor + child worker processes running the real gedcom code from /repo under generated workloads; monitors = reference-model, metamorphic and invariant oracles, crash attribution through a per-case marker, per-case CPU allowance (non-termination) and goroutine-state analysis (calls and child processes that are blocked for ever), Go race detector logs (C11, C19), event logs from build-tagged hooks"},
     ],
     "checks": [],
     "notes": "Single entry point ./run.sh <id> <quick|thorough> [--replay file]; rebuilds from /repo's working tree on every invocation. Exit 0 held (KNOWN-FINDING lines possible), 1 violation, 2 build/harness error or coverage floor not met, 3 too many inconclusive cases. Known findings: /verif/KNOWN_FINDINGS.jsonl.",
